@@ -1,6 +1,7 @@
 package props
 
 import (
+	"crypto/tls"
 	"sync/atomic"
 	"encoding/json"
 	"math/rand"
@@ -22,6 +23,9 @@ import (
 type JunkSpec struct {
 	Proxy bool `json:"proxy"`
 	Reply B    `json:"reply"`
+	// TLSCfg: the Dialer carries a TLSClientConfig (1: empty, 2: with NextProtos h2 + http/1.1, as when a
+	// tls.Config is shared with net/http) although the URL is ws:// - the option must simply not matter
+	TLSCfg int `json:"tls_client_config,omitempty"`
 }
 
 func junkExec(s core.Spec) core.Exec {
@@ -39,6 +43,12 @@ func junkExec(s core.Spec) core.Exec {
 			}
 		}()
 		d := websocket.Dialer{HandshakeTimeout: 5 * time.Second}
+		switch sp.TLSCfg {
+		case 1:
+			d.TLSClientConfig = &tls.Config{}
+		case 2:
+			d.TLSClientConfig = &tls.Config{NextProtos: []string{"h2", "http/1.1"}}
+		}
 		d.NetDial = func(network, addr string) (net.Conn, error) {
 			rc := &reactConn{failAt: -1}
 			rc.respond = func(req []byte) [][]byte { return [][]byte{sp.Reply} }
@@ -105,10 +115,10 @@ func junkGen(rng *rand.Rand, tier string) []core.Spec {
 	}
 	var out []core.Spec
 	for _, r := range []string{"HTTP/1.1 407\r\n\r\n", "HTTP/1.1 200\r\n\r\n", "HTTP/1.1 101\r\n\r\n", "\r\n\r\n", ""} {
-		out = append(out, &JunkSpec{Proxy: true, Reply: B(r)}, &JunkSpec{Proxy: false, Reply: B(r)})
+		out = append(out, &JunkSpec{Proxy: true, Reply: B(r)}, &JunkSpec{Proxy: false, Reply: B(r)}, &JunkSpec{Proxy: false, Reply: B(r), TLSCfg: 1 + rng.Intn(2)})
 	}
 	for i := 0; i < n; i++ {
-		out = append(out, &JunkSpec{Proxy: i%2 == 0, Reply: B(genJunkReply(rng))})
+		out = append(out, &JunkSpec{Proxy: i%2 == 0, Reply: B(genJunkReply(rng)), TLSCfg: core.Pick(rng, []int{0, 0, 1, 2})})
 	}
 	return out
 }
